@@ -172,6 +172,12 @@ func (e *env) checkEventStream(events []obs, opt streamOpts) {
 	}
 	links := e.chanLinks(events)
 	customSeen := map[*link]bool{}
+	chansOfLink := map[*link]int{}
+	for _, ch := range order {
+		if l := links[ch]; l != nil {
+			chansOfLink[l]++
+		}
+	}
 	for ci, ch := range order {
 		s := st[ch]
 		name := fmt.Sprintf("channel %d (%s)", ci, ch.String())
@@ -221,6 +227,24 @@ func (e *env) checkEventStream(events []obs, opt streamOpts) {
 			}
 		}
 		s.frames = tagged
+		if l.datagram && chansOfLink[l] > 1 && !opt.lossyDatagrams {
+			// the peer's channel was expired and the peer came back on a new one: each channel carries
+			// an in-order part of what the peer sent (what arrives around the expiry may be lost)
+			last := int64(-1)
+			for k, o := range s.frames {
+				wr, idx, ok := frameTag(o, l.v2)
+				if !ok || wr != byte(100+l.id) || o.sys != l.sys {
+					dsim.Failf("attribution", "%s: frame event %d is not one of peer %s", name, k, l.name)
+					return
+				}
+				if int64(idx) <= last {
+					dsim.Failf("frames-lossless", "%s: frame event %d carries index %d after index %d (duplicated or reordered)", name, k, idx, last)
+					return
+				}
+				last = int64(idx)
+			}
+			continue
+		}
 		if opt.lossyDatagrams && l.datagram {
 			// soundness under loss / duplication / reordering / corruption: whatever surfaces as a
 			// frame event is a frame this peer really sent, bit for bit
@@ -325,7 +349,8 @@ func (e *env) checkEventStream(events []obs, opt streamOpts) {
 	// a channel <-> peer bijection: two channels never share a link
 	seen := map[*link]*gomavlib.Channel{}
 	for _, ch := range order {
-		if l := links[ch]; l != nil && l.ep.kind != epCustom {
+		// (a datagram peer whose channel expired comes back on a new channel)
+		if l := links[ch]; l != nil && l.ep.kind != epCustom && !l.datagram {
 			if other, dup := seen[l]; dup {
 				dsim.Failf("attribution", "channels %s and %s are both attached to peer %s", other.String(), ch.String(), l.name)
 				return
@@ -564,7 +589,7 @@ func eventStreamRun(keyed bool) func(h []dsim.Rec) {
 	// peers of client-type endpoints listen before the node starts
 	cons := &consumer{e: e, pace: dsim.Choose(3)}
 	e.cons = cons
-	e.drivePeers(d, true, true, depth(12, 30))
+	e.drivePeers(d, !lossy, true, depth(12, 30)) // (a corrupting network could "repair" a deliberately damaged frame)
 	if err := e.startNode(); err != nil {
 		dsim.Failf("harness", "node did not initialise: %v", err)
 		return nil
